@@ -15,6 +15,9 @@ Line protocol of C01 (see harness/cmd/vh/c01.go):
   cycle <grid>    trimRow; (xml); checkSheet; checkRow
   puts n {j i k v} SetCellInt / SetCellBool in order on a new worksheet (cell slot j, row slot i): the internal
                   <sheetData> afterwards (model: SaveBook.writeCell = prepareSheetXML + fillColumns + setter)
+  rowseq n {k i v} SetRowHeight / SetRowVisible / SetRowOutlineLevel in order on a new worksheet: <sheetData> afterwards
+  colseq n {k a b v} SetColWidth(a..b, v) / SetColOutlineLevel(a, v) in order on a new worksheet: the <cols> list afterwards
+                  (model: SaveCols.setCols = flatCols with the setter's replacer)
   hbook <book>    sheet list / visibility / active tab / merged ranges / defined names of a generated workbook
                   before a real save; answer = the same after OpenReader (model: SaveBook.cycleBook)
   setint <n>      SetCellInt on A1 of a real file: raw value before, after save+open, type, displayed value
@@ -203,6 +206,40 @@ def applyPuts : Nat → List String → List Grid.Row → Option (List Grid.Row)
     | _, _, _ => none
   | _, _, _ => none
 
+/-- `colseq n { kind c1 c2 val }`: column setters in order on a new worksheet -/
+def applyColSeq : Nat → List String → Option (List SaveCols.Col) → Option (Option (List SaveCols.Col))
+  | 0, [], st => some st
+  | n + 1, kind :: c1 :: c2 :: val :: w, st =>
+    match c1.toNat?, c2.toNat? with
+    | some c1, some c2 =>
+      if kind = "w" then
+        match decodeU val with
+        | some wd => applyColSeq n w (some (SaveCols.setCols st ⟨c1, c2, ⟨false, false, true, false, 0, false, 0, some wd⟩⟩ SaveCols.widthRep))
+        | none => none
+      else
+        match val.toNat? with
+        | some lv => applyColSeq n w (some (SaveCols.setCols st ⟨c1, c1, ⟨false, false, true, false, lv, false, 0, none⟩⟩ SaveCols.outlineRep))
+        | none => none
+    | _, _ => none
+  | _, _, _ => none
+
+/-- `rowseq n { kind i val }`: row-attribute setters in order on a new worksheet (row slot i) -/
+def applyRowSeq : Nat → List String → List Grid.Row → Option (List Grid.Row)
+  | 0, [], rows => some rows
+  | n + 1, kind :: i :: val :: w, rows =>
+    match i.toNat? with
+    | some i =>
+      if kind = "h" then
+        match decodeU val with
+        | some h => applyRowSeq n w (writeRowAttr rows i (rowHeight h))
+        | none => none
+      else if kind = "v" then applyRowSeq n w (writeRowAttr rows i (rowVisible (val = "1")))
+      else match val.toNat? with
+        | some lv => applyRowSeq n w (writeRowAttr rows i (rowOutline lv))
+        | none => none
+    | none => none
+  | _, _, _ => none
+
 def step (w : List String) : String :=
   match w with
   | ["bm", h] => match decodeU h with
@@ -229,6 +266,16 @@ def step (w : List String) : String :=
   | "puts" :: n :: g => match n.toNat? with
     | some n => match applyPuts n g [] with
       | some rows => "ok " ++ showGrid rows
+      | none => "bad-op"
+    | none => "bad-op"
+  | "rowseq" :: n :: g => match n.toNat? with
+    | some n => match applyRowSeq n g [] with
+      | some rows => "ok " ++ showGrid rows
+      | none => "bad-op"
+    | none => "bad-op"
+  | "colseq" :: n :: g => match n.toNat? with
+    | some n => match applyColSeq n g none with
+      | some st => "ok " ++ showCols (st.getD [])
       | none => "bad-op"
     | none => "bad-op"
   | "hbook" :: g => stepBook g
